@@ -304,7 +304,10 @@ Theorem C15_doc_agree_implies_spec_ok : forall ts o,
 Proof. exact doc_agree_implies_spec_ok. Qed.
 Print Assumptions C15_doc_agree_implies_spec_ok.
 
-(** For every raw value, built in any way. *)
+(** For every raw value, built in any way.  Where the reading reaches a
+    marshal-only part (a value made for writing, never captured: outside the
+    statement) the specification accepts a panic or an error, provided the
+    reading stops there with what stands before delivered; the model panics. *)
 Theorem C15_raw_agree_implies_spec_ok : forall v o,
   raw_agrees v o = true -> raw_spec_ok v o = true.
 Proof. exact raw_agree_implies_spec_ok. Qed.
@@ -365,3 +368,16 @@ Theorem C15_interleaved_spec_accepts_model : forall l k,
   calls_ok l (firstn k (map (fun x => CTok (Some x)) (strip_stream l) ++ repeat CEof k)) = true.
 Proof. exact calls_ok_model. Qed.
 Print Assumptions C15_interleaved_spec_accepts_model.
+
+(** Prop.Decode / DecodeProp: the specification is the model's answer, except
+    that on a marshal-only value a panic (the model, TokenReader) or an error
+    other than "not found" are both accepted. *)
+Theorem C15_prop_agree_implies_spec_ok : forall m o,
+  prop_obs_agrees m o = true -> prop_obs_spec_ok m o = true.
+Proof. exact prop_agree_implies_spec_ok. Qed.
+Print Assumptions C15_prop_agree_implies_spec_ok.
+
+Theorem C15_propm_agree_implies_spec_ok : forall m o,
+  propm_obs_agrees m o = true -> propm_obs_spec_ok m o = true.
+Proof. exact propm_agree_implies_spec_ok. Qed.
+Print Assumptions C15_propm_agree_implies_spec_ok.
